@@ -37,4 +37,5 @@ type Checker interface {
 	SelfType() Type
 	GetMethod(typ Type, name value.Symbol, errSpan *position.Location) *Method
 	ResolveGenericParent(namespace Namespace, targetParent Namespace) *Generic
+	IsIncremental() bool
 }
